@@ -35,7 +35,7 @@ Variable mt : metrics.
 Variable bursts : list (N * list (N * N)).
 Variable oracle : list N.
 
-Definition reach (n : nat) : st := steps current tx mt bursts n (init bursts oracle).
+Definition reach (n : nat) : st := steps current enc_ev tx mt bursts n (init enc_ev bursts oracle).
 
 Theorem idle_implies_queue_empty n :
   let s := reach n in
